@@ -28,21 +28,26 @@ MANIFEST = dict(
          "checking style and every tree of items/includes of any size: error count = number of invalid items, the k-th record "
          "names the k-th invalid item's file, include chain and a line inside its range, any invalid item empties stdout, valid "
          "input gives no record and status 0; `status != 0 iff error` is proved for every non-wrapping status expression and "
-         "REFUTED (witness 256) for the raw count found in main.cc today. The shapes are re-extracted on every run; the model is "
-         "diffed against the rebuilt binary on real directory trees with 1-300 injected faults of nine kinds under default / "
-         "--strict / --pedantic, and an independent Python oracle on ledger's own status/stderr/stdout finds the failing input.",
+         "refuted (witness 256) for a raw count; which of the two holds is decided by the shape re-extracted from main.cc "
+         "(C12.status_flag). The shapes and the bodies of the loader / known-name routines are re-extracted on every run; the "
+         "model is diffed against the rebuilt binary on real directory trees with 1-300 injected faults of ten kinds under "
+         "default / --strict / --pedantic — unknown accounts, commodities, payees and tags in every relation to the declared "
+         "names (under a declared parent, sibling or child of a declared leaf, undeclared ancestor, other letter case, near "
+         "miss, declared after first use, known only through a P/N line) — and an independent Python oracle on ledger's own "
+         "status/stderr/stdout finds the failing input.",
     note="Trusted/assumed: the OS keeps the low 8 bits of main()'s return value; fault classification (which text is unbalanced, "
          "a bad date, ...) is given by the generator and checked against the binary, not proved (C01/C09/C14 own it); the report "
          "command itself succeeds on valid input; unknown payees need --check-payees in addition to --pedantic. Findings: exit "
-         "status wraps at 256 errors (main.cc); with several -f files the files after the first faulty one are not read "
-         "(session.cc), so their faults get no message.",
+         "status wrapped at 256 errors (main.cc, fixed); with several -f files the files after the first faulty one were not "
+         "read (session.cc, fixed); under --pedantic a commodity that occurs only in a cost (@, @@) or in a lot price ({...}) "
+         "is never checked, so such an undeclared commodity gets no message (textual.cc parse_post).",
     technique="Lean 4 proof over a loader model + regenerated exit-status/accounting shapes + differential model/binary check on "
               "generated journal trees with an independent stderr/status oracle",
     ref="DESIGN.md §5 C12")
 
 COMMS = jgen.STD_COMMS[:3]
 ERR_KINDS = ["unbalanced", "badDate", "badAmount", "failedAssert", "badDirective"]
-NAME_KINDS = ["unknownAccount", "unknownCommodity", "unknownPayee"]
+NAME_KINDS = ["unknownAccount", "unknownCommodity", "unknownPayee", "unknownTag"]
 ALL_KINDS = ERR_KINDS + NAME_KINDS
 MODE_FLAGS = {"normal": [], "strict": ["--strict"], "pedantic": ["--pedantic"]}
 CMDS = [["print"], ["reg"], ["bal", "--empty"]]
@@ -51,6 +56,36 @@ BAD_AMOUNTS = ["$1.2.3", "1.2.3 EUR", "$", "$-", "1..2 EUR", "EUR", "$1,2.3.4", 
 BAD_DIRS = ["P 2020/13/45 AAA $1", "include nothere-%d.dat", "apply", "end", "Y", "commodity", "account", "P 2020/01/01 AAA"]
 OK_DIRS = ["; a comment %d", "# note %d", "P 2020/01/02 EUR $1.1%d", "* org heading %d"]
 UNKNOWN_COMM = jgen.Commodity("ZQX", 0)
+# Names that are NOT declared, by how they relate to what IS declared (Builder.declarations):
+# the `known` state lives in per-object flags / sets (ACCOUNT_KNOWN on account_t objects created by
+# account_t::find_account, COMMODITY_KNOWN on commodity_t, journal_t::known_payees / known_tags),
+# so every way a name can sit next to a known one is a branch of its own.
+ACCT_VARIANTS = {
+    "fresh": ["Zzz:Unknown%d"],
+    "under-declared-parent": ["Expenses:Fodo%d", "Income:Bonus%d", "Expenses:Fodo%d:Deeper"],
+    "sibling-of-declared-leaf": ["Assets:Bank:Chequing", "Expenses:Foods", "Expenses:Food:In"],
+    "child-of-declared-leaf": ["Assets:Cash:Wallet", "Expenses:Food:Out:Late%d", "Equity:Opening:Sub"],
+    "undeclared-ancestor": ["Assets:Bank", "Assets", "Liabilities", "Equity"],
+    "case": ["assets:cash", "EXPENSES:FOOD", "Expenses:food", "expenses", "Assets:CASH"],
+}
+COMM_VARIANTS = {"fresh": ["ZQX"], "case": ["eur", "Eur", "aaa", "ppp"], "near": ["EURO", "EU", "AAAA"]}
+PAYEE_VARIANTS = {"fresh": ["stranger %d"], "case": ["Payee 1", "PAYEE 2"], "near": ["payee 13", "payee", "payee 1x"]}
+TAG_VARIANTS = {"fresh": ["Nope%d"], "case": ["project", "PROJECT", "receipt"], "near": ["Projec", "Projects", "Receipt2"]}
+UNCHECKED_VARIANTS = ("cost", "cost-total", "lot")
+FP_COST = "C12:textual.cc:cost-commodity-unchecked"
+FP_LOT = "C12:textual.cc:lot-price-commodity-unchecked"
+DECL_PARENTS = ["Expenses", "Income"]           # declared non-leaf accounts
+DECL_TAGS = ["Project", "Receipt"]
+P_KNOWN, N_KNOWN = jgen.Commodity("PPP", 0), jgen.Commodity("NMK", 0)   # known through a `P` line / an `N` line only
+
+
+def letters(n):
+    s = ""
+    n += 1
+    while n:
+        n, r = divmod(n - 1, 26)
+        s = chr(65 + r) + s
+    return s
 HUGE = 10 ** 15 + 7
 
 
@@ -62,6 +97,7 @@ def sev(kind, mode, cp):
         return "error"
     if kind == "unknownPayee" and not cp:
         return "none"
+    assert kind in NAME_KINDS, kind
     return {"normal": "none", "strict": "warn", "pedantic": "error"}[mode]
 
 
@@ -96,12 +132,66 @@ class Builder:
             x = self.gen.xact()
         return {"xact": x, "id": self.nid()}
 
+    def decoy(self):
+        """A valid transaction that sits right next to the unknown-name faults: a posting to a declared
+        NON-LEAF account, a commodity known only through a `P` / `N` line, declared tags."""
+        r = self.rng
+        c0 = COMMS[0]
+        what = r.choice(["parent", "p-known", "n-known", "tag-head", "tag-post", "tag-flag"])
+        x = self.mini([P("Assets:Cash", r.randint(1, 99), c0), P("Expenses:Food", None, None)])
+        if what == "parent":
+            x["posts"][1]["account"] = r.choice(DECL_PARENTS)
+        elif what == "p-known":
+            x["posts"][0]["amount"] = jgen.amt(Fraction(r.randint(1, 9)), P_KNOWN)
+        elif what == "n-known":
+            x["posts"][0]["amount"] = jgen.amt(Fraction(r.randint(1, 9)), N_KNOWN)
+        elif what == "tag-head":
+            x["head_after"] = ["    ; %s: value %d" % (r.choice(DECL_TAGS), r.randint(1, 9))]
+        elif what == "tag-post":
+            x["posts"][0]["note"] = "%s: v%d" % (r.choice(DECL_TAGS), r.randint(1, 9))
+        else:
+            x["posts"][1]["note"] = ":%s:" % r.choice(DECL_TAGS)
+        x["decoy"] = what
+        return {"xact": x, "id": self.nid()}
+
     def okdir(self):
         return {"dir": {"kind": "valid", "text": self.rng.choice(OK_DIRS).replace("%d", str(self.rng.randint(1, 9)))},
                 "id": self.nid()}
 
-    def fault(self, kind, small=False):
+    def late(self, kind, x):
+        """Declared AFTER its first use: returns (name, then-nodes); the then-nodes (the declaration and a
+        valid later use, one shrinking unit) are placed later in the same file by mkfile()."""
         r = self.rng
+        n = self.nid()
+        c0 = COMMS[0]
+        use = self.mini([P("Assets:Cash", r.randint(1, 99), c0), P("Expenses:Food", None, None)])
+        if kind == "unknownAccount":
+            name = "Late:Acct%d" % n
+            d = "account " + name
+            use["posts"][1]["account"] = name
+        elif kind == "unknownCommodity":
+            name = "LT" + letters(n)
+            d = "commodity " + name
+            use["posts"][0]["amount"] = jgen.amt(Fraction(3), jgen.Commodity(name, 0))
+        elif kind == "unknownPayee":
+            name = "late payee %d" % n
+            d = "payee " + name
+            use["payee"] = name
+        else:
+            name = "Late%d" % n
+            d = "tag " + name
+            use["posts"][0]["note"] = "%s: again" % name
+        pid = self.nid()
+        then = [{"dir": {"kind": "valid", "text": d}, "id": pid, "gap": r.choice([0, 1])},
+                {"xact": use, "id": pid, "gap": 1}]
+        return name, then
+
+    def fault(self, kind, small=False, variant=None, allow_late=False, name=None):
+        r = self.rng
+
+        def pick(names):
+            return name or r.choice(names)
+        then = None
         if kind == "badDirective":
             t = r.choice(BAD_DIRS[:1] if small else BAD_DIRS)
             return {"dir": {"kind": "badDirective", "text": t.replace("%d", str(r.randint(1, 99)))}, "id": self.nid()}
@@ -112,15 +202,50 @@ class Builder:
                 x = self.gen.xact(balanced=False, off_by=r.choice([1, -1, 2, 10, -7]))
             x["fault"] = {"kind": kind}
         elif kind == "unknownCommodity":
+            variant = variant or r.choice(list(COMM_VARIANTS) * 3 + (["late"] * 3 if allow_late else []) + list(UNCHECKED_VARIANTS))
             x = self.mini([P(r.choice(self.gen.accounts), r.randint(1, 50), UNKNOWN_COMM), P(r.choice(self.gen.accounts), None, None)])
-            x["fault"] = {"kind": kind, "post": 0}
+            x["fault"] = {"kind": kind, "post": 0, "variant": variant}
+            if variant == "late":
+                cname, then = self.late(kind, x)
+                x["posts"][0]["amount"] = jgen.amt(Fraction(r.randint(1, 50)), jgen.Commodity(cname, 0))
+            elif variant in ("cost", "cost-total"):
+                # the amount's commodity is declared, the commodity of the cost is not
+                x["posts"][0]["amount"] = jgen.amt(Fraction(r.randint(1, 50)), COMMS[1])
+                x["posts"][0]["cost"] = dict(jgen.amt(Fraction(r.randint(1, 9)), jgen.Commodity("CQZ", 0)), per_unit=variant == "cost")
+            elif variant == "lot":
+                x["posts"][0]["amount"] = jgen.amt(Fraction(r.randint(1, 50)), COMMS[1])
+                x["fault"]["append"] = " {%d LQZ}" % r.randint(1, 9)
+            else:
+                x["posts"][0]["amount"] = jgen.amt(Fraction(r.randint(1, 50)), jgen.Commodity(pick(COMM_VARIANTS[variant]), 0))
         else:
             x = self.valid(small)["xact"]
             if kind == "badDate":
                 x["fault"] = {"kind": kind, "text": r.choice(BAD_DATES)}
             elif kind == "unknownPayee":
-                x["payee"] = "stranger %d" % r.randint(1, 9)
-                x["fault"] = {"kind": kind}
+                variant = variant or r.choice(list(PAYEE_VARIANTS) * 2 + (["late"] * 2 if allow_late else []))
+                x["fault"] = {"kind": kind, "variant": variant}
+                if variant == "late":
+                    x["payee"], then = self.late(kind, x)
+                else:
+                    x["payee"] = pick(PAYEE_VARIANTS[variant]).replace("%d", str(r.randint(1, 9)))
+            elif kind == "unknownTag":
+                variant = variant or r.choice(list(TAG_VARIANTS) * 2 + (["late"] * 2 if allow_late else []))
+                if variant == "late":
+                    tname, then = self.late(kind, x)
+                else:
+                    tname = pick(TAG_VARIANTS[variant]).replace("%d", str(r.randint(1, 9)))
+                where = r.choice(["head", "post", "flag"])
+                # (an elided posting that balances several commodities is split and its note copied:
+                #  a tag there would be looked at once per copy)
+                i = r.choice([j for j, q in enumerate(x["posts"]) if q["amount"] is not None] or [0])
+                if where == "head":
+                    x["head_after"] = ["    ; %s: some value" % tname]
+                elif where == "post":
+                    x["posts"][i]["note"] = "%s: v" % tname
+                else:
+                    x["posts"][i]["note"] = ":%s:" % tname
+                x["note"] = ""
+                x["fault"] = {"kind": kind, "variant": variant, "where": where}
             else:
                 # posting-level fault on a posting that carries an amount
                 cands = [i for i, p in enumerate(x["posts"]) if p["amount"] is not None and
@@ -137,21 +262,40 @@ class Builder:
                     p["assert"] = jgen.amt(Fraction(HUGE + r.randint(0, 9)), cm)
                     x["fault"] = {"kind": kind, "post": i}
                 elif kind == "unknownAccount":
-                    p["account"] = "Zzz:Unknown%d" % r.randint(1, 5)
-                    x["fault"] = {"kind": kind, "post": i}
+                    variant = variant or r.choice(list(ACCT_VARIANTS) * 2 + (["late"] * 3 if allow_late else []))
+                    if variant == "late":
+                        p["account"], then = self.late(kind, x)
+                    else:
+                        p["account"] = pick(ACCT_VARIANTS[variant]).replace("%d", str(r.randint(1, 5)))
+                    x["fault"] = {"kind": kind, "post": i, "variant": variant}
                 else:
                     raise ValueError(kind)
-        return {"xact": x, "id": self.nid()}
+        nd = {"xact": x, "id": self.nid()}
+        if then:
+            nd["then"] = then
+        return nd
 
     def declarations(self):
         """One-line directives that make every name the generator uses known."""
-        ds = ["account " + a for a in self.gen.accounts] + ["commodity " + c.sym() for c in COMMS] + \
-             ["payee payee %d" % i for i in range(1, 13)]
+        ds = ["account " + a for a in self.gen.accounts] + ["account " + a for a in DECL_PARENTS] + \
+             ["commodity " + c.sym() for c in COMMS] + ["payee payee %d" % i for i in range(1, 13)] + \
+             ["tag " + t for t in DECL_TAGS] + ["P 2019/12/31 %s $2.00" % P_KNOWN.name, "N " + N_KNOWN.name]
         return [{"dir": {"kind": "valid", "text": t}, "id": self.nid(), "gap": 0, "decl": True} for t in ds]
 
 
 def mkfile(rel, nodes, final_newline=True):
-    return {"rel": rel, "nodes": nodes, "final_newline": final_newline}
+    """A file; the `then` nodes of late-declaration faults are placed after their fault (directly after it,
+    or at the end of the file)."""
+    out, tail = [], []
+    for nd in nodes:
+        out.append(nd)
+        th = nd.pop("then", None)
+        if th:
+            if nd["id"] % 2:
+                out += th
+            else:
+                tail += th
+    return {"rel": rel, "nodes": out + tail, "final_newline": final_newline}
 
 
 def include_node(b, rel, nodes, final_newline=True):
@@ -166,7 +310,7 @@ def render_file(f):
             x = nd["xact"]
             base = jgen.render_xact(x, COMMS)
             after = x.get("after") or {}
-            lines = [base[0]]
+            lines = [base[0]] + list(x.get("head_after") or [])   # `; Tag: value` lines under the header
             x["line"] = len(out) + 1
             for i, p in enumerate(x["posts"]):
                 p["line"] = len(out) + len(lines) + 1
@@ -180,6 +324,8 @@ def render_file(f):
                     lines[0] = ft["text"] + lines[0][len(good):]
                 if "post" in ft:
                     ft["line"] = x["posts"][ft["post"]]["line"]
+                    if "append" in ft:
+                        lines[ft["line"] - x["line"]] += ft["append"]
                     if ft["kind"] == "badAmount":
                         q = dict(x["posts"][ft["post"]], amount=None, cost=None, note="")
                         q["assert"] = None
@@ -224,13 +370,18 @@ def flatten(f, chain=()):
             x = nd["xact"]
             ft = x.get("fault")
             yield dict(file=f["path"], chain=chain, first=x["line"], last=x["end_line"], id=nd["id"],
-                       kind=ft["kind"] if ft else "valid", at=ft["line"] if ft else x["line"], xact=True)
+                       kind=ft["kind"] if ft else "valid", at=ft["line"] if ft else x["line"], xact=True,
+                       variant=(ft or {}).get("variant"))
         elif "dir" in nd:
             dd = nd["dir"]
             yield dict(file=f["path"], chain=chain, first=dd["line"], last=dd["line"], id=nd["id"], kind=dd["kind"],
-                       at=dd["line"], xact=False)
+                       at=dd["line"], xact=False, variant=None)
         else:
             yield from flatten(nd["include"]["file"], chain + ((f["path"], nd["include"]["line"]),))
+
+
+# does the source register the commodity of a cost / of a lot price? (set from the extractor in run())
+SOURCE_CHECKS = {"cost": False, "cost-total": False, "lot": False}
 
 
 def model_json(roots):
@@ -241,7 +392,9 @@ def model_json(roots):
                 x = nd["xact"]
                 ft = x.get("fault")
                 y = {k: v for k, v in x.items() if k != "fault"}
-                if ft:
+                if ft and not (ft.get("variant") in UNCHECKED_VARIANTS and not SOURCE_CHECKS.get(ft["variant"])):
+                    # (a commodity that only occurs in a cost / lot price is not looked at by the code as
+                    #  extracted: the model, which mirrors the code, is told `valid`; the oracle is not)
                     y["fault"] = {"kind": ft["kind"], "line": ft["line"]}
                 ns.append({"xact": y})
             elif "dir" in nd:
@@ -344,9 +497,43 @@ def impl_line(case, ob):
 
 
 def oracle(case, ob):
-    """The property on ledger's own outputs. Returns list of (fingerprint, what)."""
+    """The property on ledger's own outputs. Returns list of (fingerprint, what).  When the only thing
+    wrong is that unknown commodities occurring in a cost / lot price got no message, that is one
+    finding, not also a status / partial-report failure."""
+    res = oracle1(case, ob)
+    if any(b[0] == "C12:session.cc:later-file-skipped" for b in res):
+        # "files after the first faulty one are not read" and "an item of a later file got no record" look the
+        # same on one run: drop the first faulty file and see whether the later faults are reported then
+        mode, cp = case["mode"], case["cp"]
+        src_roots = case["roots"] if len(case["roots"]) == len(ob["roots"]) else None
+        idx = next((i for i, f in enumerate(ob["roots"])
+                    if any(sev(it["kind"], mode, cp) == "error" for it in flatten(f))), None)
+        if src_roots is not None and idx is not None:
+            rest = [copy.deepcopy(f) for i, f in enumerate(ob["roots"])]
+            rest[idx]["nodes"] = [nd for nd in rest[idx]["nodes"] if nd.get("decl")]   # keep only its declarations
+            for f in rest:
+                _strip_paths(f)
+            ob2 = observe(case, rest)
+            res2 = oracle1(case, ob2)
+            if res2:
+                res = [b for b in res if b[0] != "C12:session.cc:later-file-skipped"] + \
+                      [b for b in res2 if b[0] not in [x[0] for x in res]]
+    special = [b for b in res if b[0] in (FP_COST, FP_LOT)]
+    if special and not oracle1(case, ob, drop=UNCHECKED_VARIANTS):
+        return special
+    return res
+
+
+def _strip_paths(f):
+    f.pop("path", None)
+    for nd in f["nodes"]:
+        if "include" in nd:
+            _strip_paths(nd["include"]["file"])
+
+
+def oracle1(case, ob, drop=()):
     mode, cp = case["mode"], case["cp"]
-    faults = [it for it in ob["items"] if sev(it["kind"], mode, cp) == "error"]
+    faults = [it for it in ob["items"] if sev(it["kind"], mode, cp) == "error" and it.get("variant") not in drop]
     recs = ob["recs"]
     bad = []
     rc = ob["rc"]
@@ -376,17 +563,24 @@ def oracle(case, ob):
                     break
             upto = []
             for f in ob["roots"]:
-                upto += [it for it in flatten(f) if sev(it["kind"], mode, cp) == "error"]
+                upto += [it for it in flatten(f) if sev(it["kind"], mode, cp) == "error" and it.get("variant") not in drop]
                 if f["path"] == first_bad:
                     break
-            if len(upto) == len(recs):
+            if len(upto) == len(recs) and all(locate_error(it, r) is None for it, r in zip(upto, recs)):
                 fp = "C12:session.cc:later-file-skipped"
                 what = ("%d invalid items in %d -f files, but only the %d of the first faulty file are reported: files "
                         "after it are not read" % (len(faults), len(case["roots"]), len(recs)))
-        else:
+        if fp == "C12:error-count":
             k = first_mismatch(faults, recs)
             kind = faults[k]["kind"] if k < len(faults) else "extra"
             fp = "C12:error-count:" + kind
+            v = faults[k].get("variant") if k < len(faults) else None
+            if v in UNCHECKED_VARIANTS:
+                fp = FP_LOT if v == "lot" else FP_COST
+                what += "; the first item without a record uses an undeclared commodity only in its %s" % \
+                        ("lot price" if v == "lot" else "cost")
+            elif v:
+                what += " (first item without its record: %s, variant %s)" % (kind, v)
         bad.append((fp, what))
     for k, (it, r) in enumerate(zip(faults, recs)):
         why = locate_error(it, r)
@@ -452,7 +646,7 @@ def all_ids(roots):
         for nd in f["nodes"]:
             if "include" in nd:
                 go(nd["include"]["file"])
-            elif not nd.get("decl"):
+            elif not nd.get("decl") and nd["id"] not in ids:
                 ids.append(nd["id"])
     for f in roots:
         go(f)
@@ -561,8 +755,9 @@ def layout(b, valids, faults, how, rng):
 
 
 def make_case(b, rng, kinds, n_faults, n_valid, how, mode, cp, cmd, label, small=False, decl=None, n_roots=1):
-    valids = [b.valid(small=small) if rng.random() < 0.9 else b.okdir() for _ in range(n_valid)]
-    faults = [b.fault(rng.choice(kinds), small=small) for _ in range(n_faults)]
+    valids = [(b.decoy() if rng.random() < 0.2 else b.valid(small=small)) if rng.random() < 0.9 else b.okdir()
+              for _ in range(n_valid)]
+    faults = [b.fault(rng.choice(kinds), small=small, allow_late=True) for _ in range(n_faults)]
     nodes = layout(b, valids, faults, how, rng)
     if decl is None:
         decl = mode != "normal" or rng.random() < 0.5
@@ -571,10 +766,11 @@ def make_case(b, rng, kinds, n_faults, n_valid, how, mode, cp, cmd, label, small
     if n_roots == 1:
         roots = [mkfile("main.dat", nodes, final_newline=rng.random() < 0.85)]
     else:
-        # declarations stay in the first file; the rest is dealt round-robin
+        # declarations stay in the first file; the rest is cut into consecutive pieces (reading order kept)
         head = [nd for nd in nodes if nd.get("decl")]
         rest = [nd for nd in nodes if not nd.get("decl")]
-        roots = [mkfile("root%d.dat" % i, (head if i == 0 else []) + rest[i::n_roots]) for i in range(n_roots)]
+        cut = [len(rest) * i // n_roots for i in range(n_roots + 1)]
+        roots = [mkfile("root%d.dat" % i, (head if i == 0 else []) + rest[cut[i]:cut[i + 1]]) for i in range(n_roots)]
     return dict(roots=roots, mode=mode, cp=cp, cmd=cmd, label=label)
 
 
@@ -614,6 +810,26 @@ def boundary_cases(b, rng, tier):
             cs.append(mk(gaps([b.valid(small), b.valid(True), fault_last(b.fault(kind, small))]), "last-nonl:" + kind, mode, cp,
                          decl, final_newline=False))
             cs.append(mk(gaps([fault_last(b.fault(kind, small))]), "only:" + kind, mode, cp, decl, final_newline=small))
+    # every way an undeclared name can sit next to a declared one (per-object `known` flags / sets)
+    table = [("unknownAccount", ACCT_VARIANTS), ("unknownCommodity", COMM_VARIANTS), ("unknownPayee", PAYEE_VARIANTS),
+             ("unknownTag", TAG_VARIANTS)]
+    for kind, variants in table:
+        todo = [(v, n) for v, names in variants.items() for n in names] + [("late", None), ("late", None)]
+        if kind == "unknownCommodity":
+            todo += [(v, None) for v in UNCHECKED_VARIANTS]
+        for k, (v, n) in enumerate(todo):
+            for mode in ("pedantic", "strict"):
+                nodes = [b.valid(True), b.decoy(), b.fault(kind, k % 2 == 0, variant=v, name=n), b.decoy(), b.valid(k % 2 == 0)]
+                cs.append(mk(gaps(nodes), "name:%s:%s:%s" % (kind, v, n or "-"), mode, True, True, cmd=rng.choice(CMDS)))
+        # the same names inside an included file, and a late declaration that sits in the including file
+        for v in list(variants) + ["late"]:
+            inner = gaps([b.decoy(), b.fault(kind, True, variant=v), b.valid(True)])
+            inc = include_node(b, "names/%s.dat" % v, inner)
+            inc["gap"] = 1
+            cs.append(mk(gaps([b.valid(True)]) + [inc] + gaps([b.decoy()]), "name-included:%s:%s" % (kind, v), "pedantic", True, True))
+    # decoys alone must be clean under every style
+    for mode in ("normal", "strict", "pedantic"):
+        cs.append(mk(gaps([b.decoy() for _ in range(12)]), "decoys:" + mode, mode, True, True, cmd=rng.choice(CMDS)))
     # two adjacent faulty items, every ordered pair of kinds
     for k1 in ALL_KINDS:
         for k2 in ALL_KINDS:
@@ -646,7 +862,8 @@ def boundary_cases(b, rng, tier):
             gaps(nodes)
             cs.append(mk(nodes, "count:%s:%d" % (kind, n), mode, cp, decl, final_newline=n % 2 == 0))
     # faults followed by indented continuation lines (swallowed by error_flag)
-    for kind in ["badDate", "badAmount", "failedAssert", "unknownAccount", "unknownCommodity", "unknownPayee", "unbalanced"]:
+    for kind in ["badDate", "badAmount", "failedAssert", "unknownAccount", "unknownCommodity", "unknownPayee", "unknownTag",
+                 "unbalanced"]:
         mode, cp, decl = style(kind)
         for pos in (0, 1, 3):
             c0 = COMMS[0]
@@ -662,6 +879,9 @@ def boundary_cases(b, rng, tier):
                 x["fault"] = {"kind": kind}
             elif kind == "unbalanced":
                 x["fault"] = {"kind": kind}
+            elif kind == "unknownTag":
+                posts[pos]["note"] = "Nope: %d" % pos
+                x["fault"] = {"kind": kind, "variant": "fresh"}
             elif kind == "badAmount":
                 x["fault"] = {"kind": kind, "post": pos, "text": BAD_AMOUNTS[pos]}
             elif kind == "failedAssert":
@@ -847,6 +1067,14 @@ def run(tier, seed):
                        "the report command succeeds on a journal that was read without error",
                        "static_cast<int>(std::size_t) is the identity below 2^31 errors"]
     have_model = ctx.prepare()
+    try:
+        import extract_errors
+        kf = extract_errors.known_flag_sites()
+        SOURCE_CHECKS.update({"cost": kf["cost_commodity_checked"], "cost-total": kf["cost_commodity_checked"],
+                              "lot": kf["lot_commodity_checked"]})
+    except Exception as e:  # noqa: BLE001  (already a broken tie through Gen/ErrorFns)
+        vflib.log("C12: known_flag_sites: %s" % e)
+    ctx.extra_cov["source_registers_cost_commodity"] = dict(SOURCE_CHECKS)
     if not os.path.exists(vflib.LEDGER) or any(t[0] == "build:ledger" for t in ctx.ties_broken):
         return ctx.finish()     # no binary of the current tree to observe
     if ctx.ties_broken:
@@ -911,6 +1139,8 @@ def run(tier, seed):
         for it, s in zip(items, sevs):
             if it["kind"] != "valid":
                 ctx.feature("kind:%s:%s" % (it["kind"], s))
+                if it.get("variant"):
+                    ctx.feature("name:%s:%s" % (it["kind"], it["variant"]))
         ctx.feature("faults:" + ("0" if n_err == 0 else "1" if n_err == 1 else "2-9" if n_err < 10 else "10-99" if n_err < 100
                                  else "100-255" if n_err < 256 else "256" if n_err == 256 else "257-300"))
         # correspondence
